@@ -88,7 +88,7 @@ func (ex *Exec) frameObligations(fr *Frame, out *State, reach *smt.Term, env *CE
 	}
 	sort.Strings(names)
 	for _, name := range names {
-		if name[0] == 'L' || name[0] == 'N' || name[0] == 'X' {
+		if name[0] == 'L' || name[0] == 'N' || name[0] == 'X' || name[0] == 'Z' {
 			continue // ghost logs are not subject to modifies clauses
 		}
 		cur := out.heap[name]
